@@ -94,6 +94,14 @@ Subscribe(h, sc) == /\ Can("Subscribe") /\ h \in Handles /\ handle[h] = 0 /\ nid
                     /\ subs' = Append(subs, [id |-> nid, valid |-> TRUE, muted |-> FALSE, script |-> sc])
                     /\ handle' = [handle EXCEPT ![h] = nid] /\ nid' = nid + 1
                     /\ res' = "ok" /\ log' = <<>> /\ UNCHANGED nn
+\* an observer built with Params{.mute = true} (unique_ptr / raw pointer construction paths): subscribed, but muted from the start
+SubscribeMuted(h, sc) == /\ Can("SubscribeMuted") /\ h \in Handles /\ handle[h] = 0 /\ nid <= MaxSubs /\ sc \in Scripts /\ InOrder(h)
+                         /\ subs' = Append(subs, [id |-> nid, valid |-> TRUE, muted |-> TRUE, script |-> sc])
+                         /\ handle' = [handle EXCEPT ![h] = nid] /\ nid' = nid + 1
+                         /\ res' = "ok" /\ log' = <<>> /\ UNCHANGED nn
+\* one of OUR handles handed to ANOTHER subject's unsubscribe(): rejected, and nothing changes -- in particular not the handle
+UnsubF(h) == /\ Can("UnsubF") /\ h \in Handles /\ handle[h] # 0
+             /\ res' = "rejected" /\ log' = <<>> /\ UNCHANGED <<subs, handle, nid, nn>>
 \* via the handle: needs a handle that still points at a subject (cleared / default handles have none)
 UnsubH(h) == /\ Can("UnsubH") /\ h \in Handles /\ handle[h] # 0
              /\ IF Active(subs, handle[h])
@@ -122,7 +130,8 @@ Notify(a) == /\ Can("Notify") /\ a \in Args
                 subs' = R.subs /\ handle' = R.handle /\ nid' = R.nid /\ log' = R.log
              /\ res' = "ok" /\ nn' = IF CountNotifies THEN nn + 1 ELSE nn
 
-Next == \/ \E h \in AllHandles : \/ \E sc \in Scripts : Subscribe(h, sc)
+Next == \/ \E h \in AllHandles : \/ \E sc \in Scripts : Subscribe(h, sc) \/ SubscribeMuted(h, sc)
+                                  \/ UnsubF(h)
                                   \/ UnsubH(h) \/ UnsubS(h) \/ Mute(h) \/ Unmute(h) \/ Invalidate(h)
                                   \/ \E h2 \in AllHandles : Swap(h, h2)
         \/ \E a \in Args : Notify(a)
